@@ -57,6 +57,16 @@ Closure(U, S) == Close(U, {}, S)            \* everything reachable from S, S in
 AllObjects(U) == Closure(U, CommitsOf(U) \cup TagsOf(U))
 Closed(U, S)  == \A o \in S : Kids(U, o) \subseteq S
 
+\* shallow repositories: the parents of a commit listed in .git/shallow are not part of the
+\* repository; "complete" then means closed under KidsCut
+KidsCut(U, cut, o) == IF Kind(o) = "c" /\ o \in cut THEN {T(U.tr[Num(o)])} ELSE Kids(U, o)
+RECURSIVE CloseCut(_, _, _, _)
+CloseCut(U, cut, done, front) ==
+    IF front = {} THEN done
+    ELSE CloseCut(U, cut, done \cup front, (UNION {KidsCut(U, cut, o) : o \in front}) \ (done \cup front))
+ClosureCut(U, cut, S) == CloseCut(U, cut, {}, S)
+ClosedCut(U, cut, S)  == \A o \in S : KidsCut(U, cut, o) \subseteq S
+
 RECURSIVE AncIdx(_, _, _)
 AncIdx(U, done, front) ==                   \* commit numbers reachable through parents
     IF front = {} THEN done
@@ -67,6 +77,17 @@ RECURSIVE Peel(_, _)
 Peel(U, o) == IF Kind(o) = "g" THEN Peel(U, U.tg[Num(o)]) ELSE o
 RECURSIVE TagChain(_, _)
 TagChain(U, o) == IF Kind(o) = "g" THEN {o} \cup TagChain(U, U.tg[Num(o)]) ELSE {}
+
+\* depth-limited fetch (find_shallow): level 1 = the wanted commits (tags peeled), level k + 1 =
+\* their parents not seen at a smaller level.  inner = levels < d, edge = level d (the shallow
+\* boundary); a fetch with depth d has to deliver ClosureCut(U, edge, wants)
+RECURSIVE DepthLevels(_, _, _, _, _)
+DepthLevels(U, d, k, seen, front) ==
+    IF front = {} \/ k = d THEN [inner |-> seen, edge |-> front]
+    ELSE DepthLevels(U, d, k + 1, seen \cup front,
+                     (UNION {{C(p) : p \in U.par[Num(c)]} : c \in front}) \ (seen \cup front))
+DepthCut(U, wants, d) ==
+    DepthLevels(U, d, 1, {}, {Peel(U, w) : w \in wants} \cap CommitsOf(U))
 
 (***************************************************************************)
 (* Part 2 -- MissingObjectFinder                                            *)
